@@ -42,7 +42,7 @@ def _combos(n, k):
 def jobs(tier, seed):
     out = []
     chunk = 60
-    plan = [(2, 1, 1), (2, 2, 1), (3, 1, 1), (3, 2, 1), (3, 3, 5 if tier == "quick" else 1)]
+    plan = [(2, 1, 1), (2, 2, 1), (3, 1, 1), (3, 2, 1), (3, 3, 5 if tier == "quick" else 1), (4, 1, 1)]     # n=4 singles: branching shapes with equal-sized unrelated clades
     if tier == "thorough":
         plan.append((4, 2, 40))
     for n, k, stride in plan:
